@@ -259,3 +259,11 @@ contract(F, "odict.pop", "C39", params=dict(P, key=K), requires=["inv(self)"], m
          raises={"KeyError": ["old(key not in self)", UNCHANGED]},
          returns=lambda E, env: _d(E, env["self"]).vt,
          note="called without a default")
+
+contract(F, "odict.pop", "C39", params=dict(P, key=K, default=("vararg", (V_,))), requires=["inv(self)"],
+         modifies=MODS, ghost={"after": {"self._keys.remove(key)": _g_after_remove}},
+         ensures=["inv(self)", "key not in self", "same_vals_except(self, key)",
+                  "implies(old(key in self), result == old(self[key]) and "
+                  "removed_at(self._keys, old_keys(self), old_pos(self, key)))",
+                  "implies(not old(key in self), result == default[0] and keys_unchanged(self))"],
+         returns=lambda E, env: _d(E, env["self"]).vt, note="called with a default: never raises")
